@@ -108,6 +108,30 @@ def lattice(tier):
       sr.append({"cls": c["cls"], "kw": dict(kw, use_stochastic_rounding=True),
                  **({"sigmoid": c["sigmoid"]} if "sigmoid" in c else {})})
   cfgs += sr
+  # live re-declaration: build configuration A, call it once, assign the public
+  # attributes so that the object now declares configuration B (the library itself
+  # re-assigns quantizer attributes on live objects, e.g. QAdaptiveActivation sets
+  # quantizer.integer, layers call _set_trainable_parameter); the object must then
+  # behave exactly like a freshly built B.
+  muts = []
+  base = [c for c in cfgs if not c["kw"].get("use_stochastic_rounding")]
+  step = 5 if tier == "quick" else 2
+  for idx in range(0, len(base), step):
+    b_cfg = base[idx]
+    for a_cfg in base[idx + 1: idx + 60]:
+      if a_cfg["cls"] != b_cfg["cls"] or set(a_cfg["kw"]) != set(b_cfg["kw"]) \
+          or a_cfg.get("sigmoid", "hard") != b_cfg.get("sigmoid", "hard") or a_cfg["kw"] == b_cfg["kw"]:
+        continue
+      diff = [k for k in b_cfg["kw"] if a_cfg["kw"][k] != b_cfg["kw"][k]]
+      if b_cfg["cls"] == "quantized_linear" and any(k != "symmetric" for k in diff):
+        # bits / integer / keep_negative are read-only properties there; assigning
+        # alpha leaves the quantization_scale computed in __init__ stale on the
+        # unchanged tree - whether alpha may be re-assigned that way is not
+        # documented clearly, so it is not generated (noted in DESIGN.md 8.18)
+        continue
+      muts.append(dict(b_cfg, **{"from": a_cfg["kw"]}))
+      break
+  cfgs += muts
   if tier != "quick":
     # wide formats: codes up to the 2^24-step bound of the property (partial walks)
     for b in (20, 24):
@@ -192,7 +216,15 @@ def model(cfg):
 def build(cfg):
   from qkeras import quantizers as Q  # pylint: disable=g-import-not-at-top
   Q.set_internal_sigmoid(cfg.get("sigmoid", "hard"))
-  return getattr(Q, cfg["cls"])(**cfg["kw"])
+  if cfg.get("from") is None:
+    return getattr(Q, cfg["cls"])(**cfg["kw"])
+  import tensorflow as tf  # pylint: disable=g-import-not-at-top
+  q = getattr(Q, cfg["cls"])(**cfg["from"])
+  q(tf.constant(np.array([0.1, -0.3, 1.7, 0.0], dtype=F32)))    # first call in the old format
+  for k, v in cfg["kw"].items():
+    if cfg["from"].get(k) != v:
+      setattr(q, k, v)
+  return q
 
 
 def call(q, xs):
